@@ -363,6 +363,10 @@ impl Compile for Number {
         let matched = match self {
             Number::Byte(val) => vec![instruction!(make_byte val)],
             Number::Float(val) => vec![instruction!(make_float val)],
+            // an integer literal that does not fit 32 bits is a bigint (see `for_type`)
+            Number::Integer(val) if val.parse::<i32>().is_err() => {
+                vec![instruction!(make_bigint val)]
+            }
             Number::Integer(val) => vec![instruction!(make_int val)],
             Number::BigInt(val) => vec![instruction!(make_bigint val)],
         };
